@@ -23,6 +23,7 @@ import ast
 
 from sa import asdl
 from sa import core
+from sa import formula
 from sa import fieldtypes
 from sa import pat
 from sa import pycfg
@@ -801,6 +802,66 @@ def mirror_rule(model, rep, rule):
   rep.check(ok, rule, '%s:statement-edges-from-forward-edges' % bld.site,
             'stmt_next / stmt_prev must be exactly the forward edges that leave '
             '/ enter a statement\'s owned nodes', line=bld.node.lineno)
+  # every statement that owns a node has an entry in both tables, also when no
+  # edge touches its nodes: the entries are created in a pass over *all* nodes
+  # (or all owner sets), not over the edges
+  def table_of(kwname):
+    for c in ast.walk(bld.node):
+      if isinstance(c, ast.Call) and core.dotted(c.func) == 'Graph':
+        for k in c.keywords:
+          if k.arg == kwname:
+            v = tpl.expand(bld, k.value, c, depth=1)
+            if isinstance(v, ast.DictComp) and len(v.generators) == 1:
+              it = v.generators[0].iter
+              if isinstance(it, ast.Call) and isinstance(it.func, ast.Attribute) and \
+                  it.func.attr == 'items':
+                return core.norm(it.func.value)
+              return core.norm(it)
+            return core.norm(k.value)
+    return None
+  tables = [table_of('stmt_prev'), table_of('stmt_next')]
+  seeded = {t: False for t in tables if t}
+  for lp in [n for n in ast.walk(bld.node) if isinstance(n, ast.For)]:
+    it = core.norm(lp.iter)
+    if it not in ('self.node_index.values()', 'self.owners.values()', 'self.owners',
+                  'self.owners.items()', 'self.node_index.items()'):
+      continue
+    if any(isinstance(x, (ast.Break, ast.Continue, ast.Return)) for x in ast.walk(lp)):
+      continue
+    for l in ast.walk(lp):
+      if not (isinstance(l, ast.For) and l is not lp and isinstance(l.target, ast.Name)):
+        continue
+      sv = l.target.id
+      fake_l = ast.fix_missing_locations(ast.FunctionDef(
+          name='_per_statement', args=ast.arguments(
+              posonlyargs=[], args=[], kwonlyargs=[], kw_defaults=[], defaults=[]),
+          body=l.body, decorator_list=[], lineno=l.lineno, col_offset=0))
+      for t in seeded:
+        if pat.has(l, '%s.setdefault(%s, _V_)' % (t, sv)):
+          seeded[t] = True
+        for st in ast.walk(l):
+          # an entry is created unless one exists already (both tables have the
+          # same keys, so either may be asked)
+          if isinstance(st, ast.Assign) and core.norm(st.targets[0]) == '%s[%s]' % (t, sv):
+            pc = formula.path_condition(fake_l, st)
+            if all(pol == 'T' and core.norm(tst) in [
+                '%s not in %s' % (sv, t2) for t2 in seeded] for pol, tst in pc):
+              seeded[t] = True
+  for t in list(seeded):
+    # ... or the table creates entries on access
+    for a_ in ast.walk(bld.node):
+      if isinstance(a_, ast.Assign) and core.norm(a_.targets[0]) == t and isinstance(
+          a_.value, ast.Call) and core.dotted(a_.value.func) in (
+              'collections.defaultdict', 'defaultdict'):
+        seeded[t] = None      # entries appear only when touched: not for isolated statements
+  rep.check(len(seeded) == 2 and all(v is True for v in seeded.values()), rule,
+            '%s:entry-for-every-owning-statement' % bld.site,
+            'stmt_prev / stmt_next must have an (empty) entry for every statement '
+            'that owns a node, whether or not an edge touches it: consumers index '
+            'the tables by statement', {'tables': tables, 'seeded': {
+                k: str(v) for k, v in seeded.items()}}, line=bld.node.lineno,
+            witness='try: return t[k] / except KeyError: return None -- the handler '
+            'has no predecessor edge')
   fz = model.func(CFG, 'Node.freeze')
   ok = 'self.next = frozenset(self.next)' in core.norm(fz.node)
   rep.check(ok, rule, '%s:freeze-keeps-all' % fz.site,
